@@ -236,7 +236,7 @@ let c09_case (s : sess) (r : rng) (d : bool) (p : spos) =
   done
 
 let run_c09 (s : sess) (r : rng) corpus quick nshards budget run_case =
-  let n = (if budget > 0 then budget else if quick then 1500 else 60000) / nshards in
+  let n = (if budget > 0 then budget else if quick then 1500 else 24000) / nshards in
   List.iter (fun (d, p, tag) ->
       (* vary the starting half-move clock *)
       let p = if p.s_ep = None then { p with s_half = n_of_int [| 0; 0; 7; 8; 99; 100; 150; 3 |].(rand r 8) } else p in
